@@ -75,6 +75,14 @@ def paging_case(cid, rnd, wellformed=True):
             while True:
                 ip = (rnd.randrange(1, 255), rnd.randrange(256), rnd.randrange(256), rnd.randrange(1, 255))
                 port = rnd.choice([1, 80, 27015, 65535, rnd.randrange(1, 65536)])
+                # addresses that share one half with the terminator 0.0.0.0:0 (only both halves zero end the list)
+                k = rnd.random()
+                if k < 0.06:
+                    ip = (0, 0, 0, 0)
+                elif k < 0.10:
+                    port = 0
+                elif k < 0.12:
+                    ip = rnd.choice([(255, 255, 255, 255), (0, 0, 0, 1), (1, 0, 0, 0)])
                 if (ip, port) not in used:
                     used.add((ip, port))
                     break
